@@ -63,6 +63,15 @@ def scenarios(n, b, w, keys=True):
         out.append(cs.make(entry, nn, bb, ww))
         if keys and entry in ('pf1', 'pft', 'parmap') and nn >= 1:
             out.append(cs.make(entry, nn, bb, ww, key=True))
+        # a filtering prefetch is transparent too: it delivers what the
+        # sequential pipeline with the failing examples left out delivers
+        if entry in ('pf1', 'pft') and nn >= 2 and bb == ww:
+            for catch, kind in (('true', 'filter'), ('user', 'user')):
+                for key in ((False, True) if keys else (False,)):
+                    out.append(cs.make(entry, nn, bb, ww, catch=catch, key=key,
+                                       faults={'fn': {str(nn // 2): kind}}))
+        if entry in ('pf1', 'pft', 'parmap', 'chain') and nn >= 2 and bb == ww:
+            out.append(cs.make(entry, nn, bb, ww, neighbour=True))
         # two iterators over one dataset object, consumed in lock step
         if entry in ('pf1', 'pft', 'parmap', 'chain') and nn >= 2 and bb == ww:
             out.append(cs.make(entry, nn, bb, ww, dual=True))
@@ -81,6 +90,8 @@ def run_shard(spec, res):
             cs.note(res, sc, r)
             if sc.get('dual'):
                 res.count('executions_with_two_iterators_over_one_object')
+            if sc.get('catch'):
+                res.count('executions_of_a_filtering_prefetch')
             ok = conc.judge_transparent(sc, r, res, ld)
             if r['deadlock']:
                 res.count('deadlocks_left_to_C05')
